@@ -173,6 +173,24 @@ where
         }
     }
 
+    fn is_reified_compound(&self, compound: &dyn CompoundObject<U, E>) -> bool {
+        compound.children().all(|child| match child.as_term() {
+            Some(v) => self.is_reified(v),
+            None => self.is_reified_compound(child),
+        })
+    }
+
+    /// Check that every variable of the given logic term is a key of the substitution map.
+    /// For a reifying map this means that the term refers only to reified variables.
+    pub fn is_reified(&self, v: &LTerm<U, E>) -> bool {
+        match v.as_ref() {
+            LTermInner::Var(_, _) => self.contains_key(v),
+            LTermInner::Cons(u, v) => self.is_reified(u) && self.is_reified(v),
+            LTermInner::Compound(compound) => self.is_reified_compound(compound.as_ref()),
+            _ => true,
+        }
+    }
+
     /// Returns a list of variables referenced by the substitution map
     pub fn get_vars(&self) -> Vec<&LTerm<U, E>> {
         let mut vars = vec![];
